@@ -66,6 +66,9 @@ CORPUS = [
     "conv T0:2.36.24.0,8.100.0.0,7.0.0.0,13.5.0.0 T100:4.0.0.0,8.101.0.0,5.0.0.0,2.38.6.0,6.3.0.0 T101:8.102.0.0,3.0.4.2 T102:2.50.1.1",
     "conv T0:2.36.24.0,7.0.0.0,2.38.24.0,7.0.0.0,2.40.24.0",     # two loop points: the last one counts (outside the proved fragment, judged by the oracle)
     "conv T0:8.1.0.0,2.36.24.0 T1:2.38.24.0,7.0.0.0,2.40.24.0",  # D24 (known): a call to a channel track that has a loop point never returns
+    # macro tracks (pan envelope on / off): inside the whole-song theorem since round 4 (first-layer model: unmodelled)
+    "conv T0:24.300.0.0,2.36.24.0,24.0.0.0,2.38.12.12 T300:21.1.0.0",
+    "conv T0:4.0.0.0,24.300.0.0,8.100.0.0,5.0.0.0,24.301.0.0,6.2.0.0 T100:24.301.0.0,2.40.6.6 T300:21.1.0.0 T301:21.2.0.0,1.0.0.4",
     # D26 (fixed): the 'carry' platform command between a length-less note and a rest
     "conv P:-32768=carry T0:2.36.24.0,2.36.24.0,11.-32768.0.0,1.0.0.48,2.38.24.0",
     # drum mode inside the oracle's domain (routine ids < 94, routine notes with an on-time)
@@ -184,6 +187,13 @@ def _cases_orig(rng, tier):
             extra.append(rng.choice(["P:-32768=pcmrate,4", "P:-32768=lfo,3,5", "P:-32768=write,0x28,0xf0", "P:-32768=lforate,3", "P:-32768=mode,1", "P:-32768=write,64,5",
                                      "P:-32768=carry", "P:-32768=fm3,1010"]))
             tags.add("platform")
+        if rng.random() < 0.15:
+            # a macro track (pan envelope on), switched on somewhere in channel 0 and possibly off again
+            song[300] = [g.ev("PAN", 1), g.ev("REST", 0, 0, 4), g.ev("PAN", 2)]
+            song[0].insert(rng.randrange(0, len(song[0]) + 1), g.ev("PAN_ENVELOPE", 300))
+            if rng.random() < 0.5:
+                song[0].append(g.ev("PAN_ENVELOPE", 0))
+            tags.add("macro")
         if rng.random() < 0.25:
             extra.append("I:1=fm:%d:1" % rng.randrange(100))
             extra.append("I:2=psg:%d:2" % rng.randrange(100))
